@@ -110,6 +110,11 @@ def body(chk):
             vec0 = vec_snapshot(v.st, s)
             paddr = {n: a for n, (i, a) in s['params'].items() if isinstance(a, Ptr)}
             allowed = set(v.P.values()) | set(vsyms.values())
+            defaults = {}
+            for pn_, a_ in paddr.items():
+                e_ = stc.mem.get((a_.rid, a_.off))
+                if e_ is not None and isinstance(e_[1], T) and tm.isc(e_[1]):
+                    defaults[pn_] = e_[1].p
             for fn, meth, sig in methods:
                 args = c15.sym_args(sig)
                 argset = set(a for a in args if isinstance(a, T))
@@ -163,10 +168,42 @@ def body(chk):
                     res2 = tm.subst([res], m)[0]
                     enc = smt.Encoder()
                     script = enc.script([], [tm.cmp('ne', res, res2)])
-                    chk.add(framework.Ob('%s:two-copy-determinism' % tag, 'prop', script, 'unsat',
-                                         dict(obligation='%s determinism' % tag, depends_on=[t.p for t in dirty][:5]), rp_, '%s:%s:determinism' % (name, meth), [fn], family='determinism'))
+                    ob = framework.Ob('%s:two-copy-determinism' % tag, 'prop', script, 'unsat',
+                                      dict(obligation='%s determinism' % tag, depends_on=[t.p for t in dirty][:5]), rp_, '%s:%s:determinism' % (name, meth), [fn], 20, family='determinism')
+                    ob.result = smt.run_solver(script, 20, workdir=chk.scratch, tag=chk.pid)
+                    if ob.result['verdict'] in ('timeout', 'unknown'):
+                        # the solver did not finish: look for a concrete witness of the dependence (two values of the stale members,
+                        # everything else equal) and let the replay on the real library decide whether it is reported
+                        w_ = numeric_dependence(res, res2, [t for t in tm.topo([res, res2]) if t.op == 'sym'], chk.seed, defaults)
+                        if w_ is not None:
+                            ob.result = dict(verdict='sat', time=ob.result['time'], output='', solver='z3 (timeout) + numeric witness of dependence on %s' % [t.p for t in dirty][:3], hash=ob.result.get('hash'))
+                    chk.obs.append(ob)
+                    chk.functions.add(fn)
+                    chk.classify(ob)
     chk.extra_cov['skipped_for_path_bound'] = skipped
     chk.solve_all()
+
+
+def numeric_dependence(res, res2, syms, seed, defaults=None):
+    """two assignments that agree on every symbol except the copy-1/copy-2 stale members and give different values"""
+    import random
+    import replay as rp
+    rng = random.Random(seed + 99)
+    for _ in range(24):
+        env = {}
+        for t in syms:
+            if defaults and t.p in defaults and _ % 2 == 0:
+                q = defaults[t.p]
+                env[t.p] = rp.mp.mpf(q.numerator) / rp.mp.mpf(q.denominator)      # registered parameters at their (physically sensible) defaults
+            else:
+                env[t.p] = rp.mp.mpf(rng.randint(100, 900)) / 1000
+        try:
+            a, b = tm.evalf([res, res2], env, rp.mp, None)
+        except Exception:
+            continue
+        if rp.mp.isfinite(a) and rp.mp.isfinite(b) and abs(a - b) > rp.mp.mpf('1e-12') * (abs(a) + abs(b) + 1):
+            return env
+    return None
 
 
 def purity_replay(chk, scalar, name, meth, sig, why):
